@@ -181,6 +181,10 @@ def impl(op, a):
     return lib.canon(o.value) if o.ok else E(lib.err_code(o))
 
 
+_impl_plain = impl
+impl = lib.with_bytearray_variant(_impl_plain, ['xdlms_from_bytes'])
+
+
 LENS = [0, 1, 2, 127, 128, 129, 255, 256, 257, 1000, 65535, 70000]
 
 
@@ -316,6 +320,20 @@ def run(ctx):
     # this property's model does not contain (error 100+k); they are C02's and C07's subject and are skipped here
     ctx.corr([("xdlms_from_bytes", b) for b in dec + mal], impl, "from_bytes", decisive=lambda op, a: True,
              skip_model=lambda m: isinstance(m, E) and 100 <= m.code < 120)
+    # ---- search: an APDU object that was encoded once and whose fields are then changed encodes like a fresh object
+    by_kind = {}
+    for v in vals:
+        by_kind.setdefault(v[0], []).append(v)
+    for k, lst in by_kind.items():
+        picks = lst[::max(1, len(lst) // ctx.scale(40, 400))]
+        for v1, v2 in zip(picks, picks[1:] + picks[:1]):
+            res = lib.encode_after_field_change(build, v1, v2)
+            if res is None:
+                continue
+            ctx.tried("encode_after_field_change", key=lib.v_text(v1)[:100] + lib.v_text(v2)[:100])
+            if lib.v_text(res[0]) != lib.v_text(res[1]):
+                ctx.fail("encoding_stale_after_field_change", {"kind": k, "first": lib.v_text(v1)[:3000], "then": lib.v_text(v2)[:3000]},
+                         lib.v_text(res[1])[:200], lib.v_text(res[0])[:200])
     # ---- search: the implementation against the extracted standard encoder and the inverse law
     allv = vals + extra
     spec = lib.run_model([("spec_apdu", v) for v in allv])
@@ -340,6 +358,10 @@ def run(ctx):
 
 def replay(ctx, rp):
     c = rp["case"]
+    if "then" in c:
+        res = lib.encode_after_field_change(build, lib.v_parse(c["first"]), lib.v_parse(c["then"]))
+        print("re-used object:", lib.v_text(res[0])[:200], "\nfresh object  :", lib.v_text(res[1])[:200])
+        return lib.v_text(res[0]) != lib.v_text(res[1])
     if not c.get("apdu"):
         return True
     v = lib.v_parse(c["apdu"])
